@@ -233,6 +233,7 @@ func runReplica(seed uint64, ops int, out string) map[string]int {
 		tick       bool
 		obs        [3]nodeObs
 		okTx       int
+		glines     []string // replica A's exported Canto sections at sampled heights (for the model)
 	}
 	var recs []rec
 	for b := 0; b < ops; b++ {
@@ -269,6 +270,13 @@ func runReplica(seed uint64, ops int, out string) map[string]int {
 			}
 			if export {
 				rc.obs[i].exp = exportDigest(n)
+				if i == 0 {
+					if sec, _, err := exportSections(n.App); err == nil {
+						if g, err := parseCantoGen(n.App.AppCodec(), sec); err == nil {
+							rc.glines = g.Lines(int(ht), 1)
+						}
+					}
+				}
 			}
 		}
 		// B is destroyed and re-created over its database at every block boundary
@@ -365,6 +373,9 @@ func runReplica(seed uint64, ops int, out string) map[string]int {
 			if eState != "off" {
 				e = nodeObs{"missing", "missing", "-"}
 			}
+		}
+		for _, l := range rc.glines {
+			s.t.Line(l)
 		}
 		s.t.Line(fmt.Sprintf("O %d block t=%s ntx=%d oktx=%d reads=%d restart=1 tick=%s => ok ah=%s,%s,%s,%s,%s rh=%s,%s,%s,%s,%s ex=%s,%s,%s,%s,%s",
 			rc.height, timeNs(rc.t), rc.ntx, rc.okTx, rc.reads, b01(rc.tick),
